@@ -39,3 +39,8 @@ check_C15() {
   build_inpkg c15_pinlifetime_verif_test.go
   inpkg_test inpkg TestVerifC15
 }
+
+check_C19() {
+  build_inpkg fixture_verif_test.go c19_resolution_verif_test.go
+  inpkg_test inpkg TestVerifC19
+}
